@@ -304,7 +304,7 @@ class Tpl:
 
 def _tblprop_value(content, f):
     # the value of a TBLPROPERTIES assignment is cut at its last '=' (with or without spaces around it)
-    return (["equals-in-tblproperties-value"] + [x for x in f if x != "equals-directly-after-word-char"]) if "=" in content else f
+    return f + ["equals-in-tblproperties-value"] if "=" in content else f
 
 
 def _dq_in(what):
